@@ -130,7 +130,11 @@ func verifExplore(sys *verifSys, deadline time.Time, workers int) (verifStats, [
 		seen: map[[16]byte]struct{}{}, findings: map[string]*verifViolation{}}
 	ex.cond = sync.NewCond(&ex.mu)
 	ex.stats.Outcomes = map[string]int64{}
-	root := &verifNode{w: sys.Init()}
+	w0, sf := verifSafeInit(sys)
+	if sf != nil {
+		return ex.stats, []*verifViolation{{Prop: sys.Prop, Sig: sf.Sig, Detail: sf.Detail, Sys: sys.ID, Seed: sys.Seed, Path: []verifEv{}, Count: 1}}
+	}
+	root := &verifNode{w: w0}
 	ex.seen[root.w.key()] = struct{}{}
 	ex.stats.States = 1
 	ex.stack = append(ex.stack, root)
@@ -282,9 +286,28 @@ func (ex *verifExplorer) expand(n *verifNode) {
 }
 
 // verifReplay re-executes a recorded path on a fresh world and returns the signatures observed.
+// verifSafeInit builds the initial world; an honest set-up that fails (sessions cannot be established, …) is a
+// finding of the property under test, not a crash of the checker
+func verifSafeInit(sys *verifSys) (w *verifWorld, f *verifFinding) {
+	defer func() {
+		if r := recover(); r != nil {
+			msg := fmt.Sprint(r)
+			if strings.HasPrefix(msg, "verif:") {
+				w, f = nil, &verifFinding{sys.Prop + ":honest-setup-failed", fmt.Sprintf("the honest set-up of configuration %s fails: %s", sys.ID, msg)}
+				return
+			}
+			panic(r)
+		}
+	}()
+	return sys.Init(), nil
+}
+
 func verifReplay(sys *verifSys, path []verifEv) (sigs []string, details map[string]string, err error) {
-	w := sys.Init()
+	w, sf := verifSafeInit(sys)
 	details = map[string]string{}
+	if sf != nil {
+		return []string{sf.Sig}, map[string]string{sf.Sig: sf.Detail}, nil
+	}
 	add := func(fs []verifFinding) {
 		for _, f := range fs {
 			if _, ok := details[f.Sig]; !ok {
